@@ -101,6 +101,7 @@ CmdResult(t, verb, a) ==
     [] verb = "TXTUNE" /\ n = 1 -> R(Upd(t, [s EXCEPT !.tx = <<a[1] * 1000>>]), clk, 0)
     [] verb = "MEASURE" /\ n = 1 -> [Same(0) EXCEPT !.win = PmWindow(a[1] * 1000)]
     [] verb = "SETFH" /\ n >= 4 ->
+         IF a[1] < 0 \/ a[1] > 63 THEN Same(-1) ELSE     \* HSN is a 6-bit value (45.002)
          R(Upd(t, [s EXCEPT !.fh = <<[hsn |-> a[1], maio |-> a[2], ma |-> Pairs(SubSeq(a, 3, n))]>>]), clk, 0)
     [] verb = "SETFORMAT" /\ n = 1 ->
          IF a[1] < 0 \/ a[1] > 15 THEN Same(-1)
